@@ -176,7 +176,7 @@ fn find_fn<'a>(file: &'a syn::File, spec: &str) -> Vec<FoundFn<'a>> {
 /// Only helpers without type parameters, `return`, `?` or `.await` are inlined, and only through `self.helper(..)`, `Self::helper(..)` or
 /// `helper(..)`. The inlined text is put on the line of the call, so every line number of the file stays what it is in the repository.
 /// Returns the rewritten file (or None when nothing was inlined) and the byte ranges of the inlined helpers in the ORIGINAL file.
-fn inline_helpers(orig: &SourceFile, func: &str, under_contract: &dyn Fn(&str) -> bool, notes: &mut Vec<String>) -> Option<(SourceFile, Vec<(usize, usize)>)> {
+fn inline_helpers(orig: &SourceFile, func: &str, closure: Option<usize>, lift: &Option<String>, under_contract: &dyn Fn(&str) -> bool, notes: &mut Vec<String>) -> Option<(SourceFile, Vec<(usize, usize)>)> {
     struct Helper { sig: syn::Signature, block: syn::Block, span: (usize, usize), impl_ty: Option<String>, nested: bool }
     fn collect(src: &SourceFile, items: &[syn::Item], out: &mut BTreeMap<String, Vec<Helper>>) {
         for it in items {
@@ -259,7 +259,8 @@ fn inline_helpers(orig: &SourceFile, func: &str, under_contract: &dyn Fn(&str) -
                 Some(v) if v.len() == 1 => {
                     let h = &v[0];
                     if h.sig.generics.params.iter().any(|g| !matches!(g, syn::GenericParam::Lifetime(_))) || h.sig.asyncness.is_some() || h.sig.unsafety.is_some() { return false; }
-                    if h.impl_ty.is_some() && h.impl_ty != fty { return false; }
+                    // (a method of another type is reached through a receiver, which gets a name of its own: see `self__` below)
+                    if h.impl_ty.is_some() && h.impl_ty != fty && !h.sig.inputs.iter().any(|a| matches!(a, syn::FnArg::Receiver(r) if r.reference.is_some())) { return false; }
                     if !h.sig.inputs.iter().all(|a| match a { syn::FnArg::Receiver(_) => true, syn::FnArg::Typed(pt) => matches!(&*pt.pat, syn::Pat::Ident(pi) if pi.by_ref.is_none() && pi.subpat.is_none()) }) { return false; }
                     let mut u = Unfit(false);
                     u.visit_block(&h.block);
@@ -269,7 +270,12 @@ fn inline_helpers(orig: &SourceFile, func: &str, under_contract: &dyn Fn(&str) -
             }
         };
         let mut fc = FindCall { src, names: &fit, hit: None, recv: None };
-        fc.visit_block(found[0].block);
+        // only calls inside the part of the function that is extracted (for a lifted closure: its body)
+        match select_region(found[0].block, closure, lift) {
+            Ok((Some(b), _)) => fc.visit_block(b),
+            Ok((None, Some(e))) => fc.visit_expr(e),
+            _ => break,
+        }
         let recv_span = fc.recv;
         let ((cs, ce), name, args, is_method) = match fc.hit { Some(h) => h, None => break };
         let h = &helpers.get(&name).unwrap()[0];
@@ -461,6 +467,35 @@ fn rename_spec(spec: &BodySpec, map: &[(String, String)], ambiguous: &[String], 
     }
     if !alias.is_empty() { s.prologue = format!("{}{}", alias, s.prologue); }
     Some(s)
+}
+
+/// the part of a function that a `//@BODY` directive extracts: the whole body, or the body of its n-th closure and / or async block
+fn select_region<'x>(fblock: &'x syn::Block, closure: Option<usize>, lift: &Option<String>) -> Result<(Option<&'x syn::Block>, Option<&'x Expr>), String> {
+    if closure.is_none() && lift.is_none() { return Ok((Some(fblock), None)); }
+    let mut fi = FindInner { want_closure: closure, want_async: None, nc: 0, na: 0, found_closure: None, found_async: None };
+    fi.visit_block(fblock);
+    let mut inner_block: Option<&syn::Block> = None;
+    let mut inner_expr: Option<&Expr> = None;
+    if closure.is_some() {
+        let c = fi.found_closure.ok_or_else(|| format!("closure #{}", closure.unwrap()))?;
+        match &*c.body {
+            Expr::Block(b) => inner_block = Some(&b.block),
+            other => inner_expr = Some(other),
+        }
+    }
+    if let Some(a) = lift {
+        let n: usize = a.parse().unwrap_or(0);
+        let mut fa = FindInner { want_closure: None, want_async: Some(n), nc: 0, na: 0, found_closure: None, found_async: None };
+        match (inner_block, inner_expr) {
+            (Some(b), _) => fa.visit_block(b),
+            (None, Some(e)) => fa.visit_expr(e),
+            _ => fa.visit_block(fblock),
+        }
+        let ab = fa.found_async.ok_or_else(|| format!("async block #{}", n))?;
+        inner_block = Some(&ab.block);
+        inner_expr = None;
+    }
+    Ok((inner_block, inner_expr))
 }
 
 fn norm_ws(s: &str) -> String {
@@ -1662,7 +1697,7 @@ fn main() {
                 let under_contract = |name: &str| -> bool {
                     contract_names.contains(name) || spec.rules.call.contains_key(name) || tmpl_text.contains(&format!("fn {}(", name)) || tmpl_text.contains(&format!("fn {}<", name))
                 };
-                let inl = if spec.closure.is_some() || spec.lift.is_some() { None } else { inline_helpers(base, &spec.func, &under_contract, &mut notes) };
+                let inl = inline_helpers(base, &spec.func, spec.closure, &spec.lift, &under_contract, &mut notes);
                 let src: &SourceFile = match &inl { Some((f, _)) => f, None => base };
             let found = find_fn(&src.ast, &spec.func);
             if found.len() != 1 {
@@ -1698,35 +1733,7 @@ fn main() {
                 }
             }
             // choose the region
-            let mut region_block: Option<&syn::Block> = Some(f.block);
-            let mut region_expr: Option<&Expr> = None;
-            if spec.closure.is_some() || spec.lift.is_some() {
-                let mut fi = FindInner { want_closure: spec.closure, want_async: None, nc: 0, na: 0, found_closure: None, found_async: None };
-                fi.visit_block(f.block);
-                let mut inner_block: Option<&syn::Block> = None;
-                let mut inner_expr: Option<&Expr> = None;
-                if spec.closure.is_some() {
-                    let c = fi.found_closure.unwrap_or_else(|| die(&format!("anchor lost: closure #{} of {}", spec.closure.unwrap(), spec.func)));
-                    match &*c.body {
-                        Expr::Block(b) => inner_block = Some(&b.block),
-                        other => inner_expr = Some(other),
-                    }
-                }
-                if let Some(a) = &spec.lift {
-                    let n: usize = a.parse().unwrap_or(0);
-                    let mut fa = FindInner { want_closure: None, want_async: Some(n), nc: 0, na: 0, found_closure: None, found_async: None };
-                    match (inner_block, inner_expr) {
-                        (Some(b), _) => fa.visit_block(b),
-                        (None, Some(e)) => fa.visit_expr(e),
-                        _ => fa.visit_block(f.block),
-                    }
-                    let ab = fa.found_async.unwrap_or_else(|| die(&format!("anchor lost: async block #{} of {}", n, spec.func)));
-                    inner_block = Some(&ab.block);
-                    inner_expr = None;
-                }
-                region_block = inner_block;
-                region_expr = inner_expr;
-            }
+            let (region_block, region_expr) = select_region(f.block, spec.closure, &spec.lift).unwrap_or_else(|what| die(&format!("anchor lost: {} of {}", what, spec.func)));
             let mut rw = Rewriter {
                 src,
                 spec: &spec,
@@ -1851,7 +1858,13 @@ fn main() {
                 Some((_, helper_regions)) => {
                     // offsets of the rewritten text mean nothing in the repository's file: the whole function and the inlined helpers count
                     let of = find_fn(&base.ast, &spec.func);
-                    if of.len() == 1 { let (s0, e0) = base.range(of[0].block.span()); extracted_sites.push(format!("{}:{}:{}", spec.file, s0, e0)); }
+                    if of.len() == 1 {
+                        match select_region(of[0].block, spec.closure, &spec.lift) {
+                            Ok((Some(b), _)) => { let (s0, e0) = base.range(b.span()); extracted_sites.push(format!("{}:{}:{}", spec.file, s0, e0)); }
+                            Ok((None, Some(e))) => { let (s0, e0) = base.range(e.span()); extracted_sites.push(format!("{}:{}:{}", spec.file, s0, e0)); }
+                            _ => {}
+                        }
+                    }
                     for (hs, he) in helper_regions { extracted_sites.push(format!("{}:{}:{}", spec.file, hs, he)); }
                 }
             }
